@@ -33,6 +33,49 @@ def drain():
     return v, c
 
 
+# ---- result independence: what a call hands back belongs to the caller.  Every array returned through a guarded callable is kept
+# until the case has been judged and is then overwritten with NaN; if the code under test kept a reference to it (an in-memory
+# memo handing out its own arrays), later calls return poisoned values, which the finiteness monitor and the relations see.
+_RESULTS = []
+
+
+def track(res, depth=0):
+    if isinstance(res, np.ndarray):
+        _RESULTS.append(res)
+    elif isinstance(res, (list, tuple)) and depth < 4:
+        for x in res:
+            track(x, depth + 1)
+    elif isinstance(res, dict) and depth < 4:
+        for x in res.values():
+            track(x, depth + 1)
+
+
+def poison(res=None):
+    """Overwrite tracked result arrays (or the given result) with NaN / extreme values."""
+    if res is not None:
+        keep = list(_RESULTS)
+        _RESULTS.clear()
+        track(res)
+        poison()
+        _RESULTS.extend(keep)
+        return
+    n = 0
+    for a in _RESULTS:
+        try:
+            if a.flags.writeable and a.size:
+                if a.dtype.kind in "fc":
+                    a[...] = np.nan
+                    n += 1
+                elif a.dtype.kind in "iu":
+                    a[...] = np.iinfo(a.dtype).max
+                    n += 1
+        except Exception:
+            pass
+    _RESULTS.clear()
+    if n:
+        _count("result_arrays_poisoned_after_use", n)
+
+
 def _snap(o, depth=0):
     if isinstance(o, np.ndarray):
         return ("a", o.copy()) if o.size <= MAX_ELEMS else None
@@ -108,6 +151,7 @@ def guarded(fn, name=None):
         prims = ([_prims(a) for a in args], {k: _prims(v) for k, v in kw.items()})
         res = fn(*args, **kw)
         _count(f"purity_monitored_calls:{name}")
+        track(res)
         ch = []
         for i, (a, s) in enumerate(zip(args, snaps)):
             _changed(a, s, f"arg{i}", ch)
